@@ -232,7 +232,10 @@ def rule_nbd(ck):
         m, ok = bind_args(P.func(NK), calls[0])
         v = m.get(var)
         o = ck.ob('C07-D2.var', g, calls[0], calls[0])
-        (o.ok() if isinstance(v, ast.Name) and v.id == 'variance' else o.fail('variance argument is `%s`' % (u(v) if v is not None else '?')))
+        ve = Expander(P, g).expand(v) if v is not None else None
+        (o.ok() if isinstance(ve, ast.Name) and getattr(ve, '_param', False) and ve.id == 'variance' else
+         o.fail('the variance handed to the NBD kernel is `%s`, not the variance the caller gave: the test is no longer made against the '
+                'negative binomial with the given mean and variance' % (u(ve)[:80] if ve is not None else '?')))
 
 
 def rule_catalog(ck):
@@ -293,4 +296,12 @@ def rule_catalog(ck):
         (o.ok('(delta_1, delta_2) in order') if good else o.fail('quantile is `%s`, expected get_quantiles\' (delta_1, delta_2) in order' % u(q[1])))
 
 
-RULES = [rule_poisson, rule_nbd, rule_catalog]
+def rule_totals(ck):
+    """the forecast total N handed to the number tests is event_count = sum over the scaled view (shared C11-D1 scaling, C11-D4 sum)"""
+    from . import c11
+    ck.clause('D1 (shared C11-D1/D4: the forecast total)')
+    c11.rule_scaling(ck)
+    c11.rule_axes(ck)
+
+
+RULES = [rule_poisson, rule_nbd, rule_catalog, rule_totals]
